@@ -351,6 +351,9 @@ type c20In struct {
 func c20Input(c *hx.Ctx) (string, string) {
 	r := c.Rng
 	switch k := r.Intn(100); {
+	case k < 2:
+		// something after a closing parenthesis
+		return strings.Replace(gen.GoMod(r), "\n)", "\n) "+[]string{"x", "(", "\"s\"", ",", ")"}[r.Intn(5)], 1), "paren-tail"
 	case k < 40:
 		return gen.TokenSoup(r), "soup"
 	case k < 62:
